@@ -1466,7 +1466,7 @@ impl Prop for C11 {
         Meta {
             id: "C11",
             level: "exploration",
-            rule: "every abstract filter of the enumerated families (all 256 subsets of the 8 criteria x 3 canonical value sets x negated x enabled x kind; every variant of every criterion alone x negated x enabled, incl. all 256 verb_mstp_mtin values and the 8 mstp values; all pairs of variants of two different criteria x negated; all triples over reduced variant sets; thorough: triples over the larger sets and the full product 'criterion absent or one of 4 values' over all 8 criteria) is built through every library front-end that can express it (JSON explicit, JSON with documented defaults / regex auto-detection, DLF in dlt-viewer layout with decoy values for disabled criteria, DLF compact, dlt-convert list, public fields of Filter) and decides every message of the universe (3 ECUs x {no extended header | 3 APIDs x 3 CTIDs x 6 types} x 3 lifecycles x 3 texts, all 256 type bytes, extras with regex / XML meta characters, non-printable ids, real verbose payloads); files with several filters (2 DLF filters, 1..3 dlt-convert entries) are checked entry by entry. Oracle = independent three-valued evaluator of the statement (true / false / undefined); where it is defined every front-end must agree with it, where it is undefined the front-ends must agree with each other; from_json(to_json(f)) must decide like f on the whole universe. A case is non-trivial when the statement selects some but not all universe messages.".into(),
+            rule: "every abstract filter of the enumerated families (all 256 subsets of the 8 criteria x 3 canonical value sets x negated x enabled x kind; every variant of every criterion alone x negated x enabled, incl. all 256 verb_mstp_mtin values and the 8 mstp values; all pairs of variants of two different criteria x negated; all triples over reduced variant sets; thorough: triples over the larger sets and the full product 'criterion absent or one of 4 values' over all 8 criteria) is built through every library front-end that can express it (JSON explicit, JSON with documented defaults / regex auto-detection, DLF in dlt-viewer layout with decoy values for disabled criteria, DLF compact, dlt-convert list, public fields of Filter) and decides every message of the universe (3 ECUs x {no extended header | 3 APIDs x 3 CTIDs x 6 types} x 3 lifecycles x 3 texts, all 256 type bytes, extras with regex / XML meta characters, non-printable ids, real verbose payloads); files with several filters (2 DLF filters, 1..3 dlt-convert entries) are checked entry by entry. Oracle = independent three-valued evaluator of the statement (true / false / undefined); where it is defined every front-end must agree with it, where it is undefined the front-ends must agree with each other; from_json(to_json(f)) must decide like f on the whole universe. A case is non-trivial when the statement selects some but not all universe messages. Additionally the ECU:APID:CTID front-end is run through the binary built from the working tree (adlt convert --eac=.. on the universe written to a DLT file): 7 ECU x 6 APID x 4 CTID criteria as single expressions and all pairs of a 6-expression core as lists, judged by the same evaluator.".into(),
             assumptions: vec![
                 "level bounds hold only for log messages (MSTP 0), an empty lifecycle list is 'not specified', over-long literal ids are truncated to 4 bytes: taken from the unit tests / doc comments where the statement is silent".into(),
                 "regex ids on NUL-padded message ids are not judged against the statement when the padding changes the result (counted as undefined_by_spec); the front-ends must still agree with each other there".into(),
@@ -1475,7 +1475,7 @@ impl Prop for C11 {
             ],
             budget_s: (35, 1200),
             workers: 0,
-            required_landmarks: vec![
+            required_landmarks: vec!["eac_cli_case", 
                 "judged_json",
                 "judged_json_auto",
                 "judged_dlf",
@@ -1744,9 +1744,27 @@ impl Prop for C11 {
             });
             ctx.end_family(done);
         }
+        // (last) the ECU:APID:CTID front-end of `adlt convert --eac=..` through the binary built from the working tree
+        eac_cli_family(ctx, &uni);
     }
 
+    fn prepare(&self, _t: Tier) -> Result<(), String> {
+        crate::rem::build_adlt_bin()
+    }
     fn replay(&self, case: &Value, ctx: &mut Ctx) {
+        if case["family"] == "eac_cli" {
+            ctx.mine();
+            if crate::rem::build_adlt_bin().is_err() {
+                return;
+            }
+            let uni = Universe::new();
+            let dir = crate::rem::scratch_dir();
+            let file = eac_universe_file(&uni, &dir);
+            let exprs: Vec<(Option<IdCrit>, Option<IdCrit>, Option<IdCrit>)> = case["exprs"].as_array().unwrap().iter().map(|e| (AFilter::id_from(&e[0]), AFilter::id_from(&e[1]), AFilter::id_from(&e[2]))).collect();
+            eac_cli_case(ctx, &uni, &file, &exprs);
+            let _ = std::fs::remove_dir_all(&dir);
+            return;
+        }
         let uni = Universe::new();
         ctx.mine();
         let family = case["family"].as_str().unwrap_or("replay");
@@ -1758,4 +1776,119 @@ impl Prop for C11 {
             run_case(ctx, &uni, family, &AFilter::from_value(&case["filter"]));
         }
     }
+}
+
+
+// ------------------------------------------------------------------------------------------------ --eac through the binary
+fn trim0(b: &[u8; 4]) -> String {
+    String::from_utf8_lossy(&b[..b.iter().position(|x| *x == 0).unwrap_or(4)]).into_owned()
+}
+/// the universe messages that can be written to a DLT file unchanged (ids without control bytes)
+fn eac_universe_file(uni: &Universe, dir: &str) -> String {
+    let mut bytes = vec![];
+    for (i, d) in uni.dm.iter().enumerate() {
+        let mut m = d.clone();
+        m.index = i as u32;
+        let _ = m.to_write(&mut bytes);
+    }
+    let p = format!("{dir}/universe.dlt");
+    std::fs::write(&p, bytes).expect("write universe");
+    p
+}
+fn eac_text(c: &Option<IdCrit>) -> String {
+    match c {
+        None => String::new(),
+        Some(IdCrit::Lit(s)) | Some(IdCrit::Re(s)) => s.clone(),
+    }
+}
+fn eac_cli_case(ctx: &mut Ctx, uni: &Universe, file: &str, exprs: &[(Option<IdCrit>, Option<IdCrit>, Option<IdCrit>)]) {
+    let cj = || json!({"family": "eac_cli", "exprs": exprs.iter().map(|(e, a, c)| json!([AFilter::id_json(e), AFilter::id_json(a), AFilter::id_json(c)])).collect::<Vec<_>>()});
+    let arg = exprs.iter().map(|(e, a, c)| format!("{}:{}:{}", eac_text(e), eac_text(a), eac_text(c)).trim_end_matches(':').to_string()).collect::<Vec<_>>().join(",");
+    let out = std::process::Command::new(crate::rem::adlt_bin()).args(["convert", "-s", &format!("--eac={arg}"), file]).output();
+    ctx.landmark("eac_cli_case");
+    ctx.eval(true);
+    let out = match out {
+        Ok(o) => o,
+        Err(e) => {
+            ctx.violation("eac_cli_spawn", "", cj, e.to_string());
+            return;
+        }
+    };
+    if !out.status.success() {
+        ctx.violation("eac_cli_exit", "", cj, format!("adlt convert --eac={arg} exited with {:?}: {}", out.status.code(), String::from_utf8_lossy(&out.stderr).chars().take(200).collect::<String>()));
+        return;
+    }
+    let got: std::collections::BTreeSet<usize> = String::from_utf8_lossy(&out.stdout).lines().filter_map(|l| l.split(' ').next().and_then(|t| t.parse().ok())).collect();
+    // spec: a message is kept iff some expression (a positive filter) holds; undefined verdicts are not judged
+    let specs: Vec<SpecFilter> = exprs
+        .iter()
+        .map(|(e, a, c)| {
+            let mut f = AFilter::new(0);
+            f.ecu = e.clone();
+            f.apid = a.clone();
+            f.ctid = c.clone();
+            SpecFilter::new(&f)
+        })
+        .collect();
+    for (i, m) in uni.um.iter().enumerate() {
+        // the file carries the ids as written: skip universe messages whose ids were not plain 4-byte ids on disk
+        let verdicts: Vec<Tri> = specs.iter().map(|s| s.eval(m)).collect();
+        if verdicts.iter().any(|v| *v == Tri::U) {
+            continue;
+        }
+        let want = verdicts.iter().any(|v| *v == Tri::T);
+        if want != got.contains(&i) {
+            let disc = format!("{}{}{}", if exprs.iter().any(|x| x.0.is_some()) { "e" } else { "" }, if exprs.iter().any(|x| x.1.is_some()) { "a" } else { "" }, if exprs.iter().any(|x| x.2.is_some()) { "c" } else { "" });
+            ctx.violation("eac_cli_selection", &disc, cj, format!("--eac={arg}: message {i} ({}, ext {:?}) {} but the filter says {}", trim0(&m.ecu), m.ext.map(|(t, a, c)| (t, trim0(&a), trim0(&c))), if got.contains(&i) { "printed" } else { "not printed" }, want));
+            return;
+        }
+    }
+}
+fn eac_cli_family(ctx: &mut Ctx, uni: &Universe) {
+    let ids = |lits: &[&str], res: &[&str]| -> Vec<Option<IdCrit>> {
+        let mut v = vec![None];
+        v.extend(lits.iter().map(|s| Some(IdCrit::Lit(s.to_string()))));
+        v.extend(res.iter().map(|s| Some(IdCrit::Re(s.to_string()))));
+        v
+    };
+    let ecus = ids(&["ECU1", "ECU2", "EC", "NONE"], &["^ECU[12]", "ECU1|EC$"]);
+    let apids = ids(&["APP1", "AP", "NOPE"], &["^APP", "APP[2]"]);
+    let ctids = ids(&["CTX2", "CT"], &["X1$"]);
+    ctx.begin_family("eac_cli", &format!("--eac through the binary: {} ECU x {} APID x {} CTID criteria (none / literal / regex) as single expressions + all pairs of a 6-expression core as lists, on the universe written to a DLT file", ecus.len(), apids.len(), ctids.len()));
+    let dir = crate::rem::scratch_dir();
+    let file = eac_universe_file(uni, &dir);
+    let mut done = true;
+    'x: for e in &ecus {
+        for a in &apids {
+            for c in &ctids {
+                if e.is_none() && a.is_none() && c.is_none() {
+                    continue;
+                }
+                if ctx.mine() {
+                    eac_cli_case(ctx, uni, &file, &[(e.clone(), a.clone(), c.clone())]);
+                    if ctx.out_of_time() {
+                        done = false;
+                        break 'x;
+                    }
+                }
+            }
+        }
+    }
+    let core: Vec<(Option<IdCrit>, Option<IdCrit>, Option<IdCrit>)> = vec![
+        (ecus[1].clone(), None, None),
+        (None, apids[1].clone(), None),
+        (ecus[2].clone(), apids[2].clone(), ctids[1].clone()),
+        (None, None, ctids[3].clone()),
+        (ecus[5].clone(), apids[4].clone(), None),
+        (ecus[3].clone(), None, ctids[2].clone()),
+    ];
+    for x in &core {
+        for y in &core {
+            if ctx.mine() {
+                eac_cli_case(ctx, uni, &file, &[x.clone(), y.clone()]);
+            }
+        }
+    }
+    ctx.end_family(done);
+    let _ = std::fs::remove_dir_all(&dir);
 }
